@@ -244,7 +244,13 @@ func (c09) Run(ctx *core.RunCtx) {
 		return
 	}
 	var sc *c09Scheme
-	switch ch.Weighted("scheme", []int{8, 8, 8, 4, 2, 4, 2, 1}) {
+	switch ch.Weighted("scheme", []int{8, 8, 8, 4, 2, 4, 2, 1, 1, 1}) {
+	case 9:
+		c09BlindRotRun(ctx)
+		return
+	case 8:
+		c09BridgeRun(ctx)
+		return
 	case 7:
 		c09RingPackRun(ctx)
 		return
